@@ -55,6 +55,8 @@ func TestVerif(t *testing.T) {
 		os.Exit(workerMain())
 	case "one":
 		os.Exit(oneMain())
+	case "ref":
+		os.Exit(refMain())
 	case "":
 		t.Skip("VERIF_MODE not set")
 	default:
